@@ -219,7 +219,7 @@ def headers_for(rng, want_stream=True):
 class C14(Prop):
     id = "C14"
     props = "C14_Props"
-    coq_files = ("Base", "C14_Model", "C14_Spec", "C14_Proofs", "C14_Alias", "C14_Props")
+    coq_files = ("Base", "C14_Http", "C14_Model", "C14_Spec", "C14_Proofs", "C14_Alias", "C14_HttpProofs", "C14_Props")
     models = ("C14_Model",)
     packages = {"tr": "internal/tracer"}
     kinds = {"c14.raw": "tr", "c14.reader": "tr", "c14.writer": "tr", "c14.props": "tr", "c14.rt": "tr", "c14.handler": "tr"}
@@ -233,7 +233,13 @@ class C14(Prop):
             "(c14.reader), tracingResponseWriter.Write/tryFinish with scripted (n, err) incl. short writes (c14.writer); the same scripts through TracingRoundTripper with a fake transport "
             "(c14.rt: response pointer, status, headers, trailers unchanged) and TracingHandler with a fake ResponseWriter (c14.handler: status, "
             "headers, trailers reach the inner writer); heap allocation around every tracer call metered against 16 MiB + 64 x bytes traced; header detection "
-            "(c14.props). Caller's memory: every slice the tracer is handed (trace, Read, Write; raw, reader, writer, rt, handler) is a window "
+            "(c14.props). Around the bodies: c14.handler with a request (method x ContentLength -1/0/n x Content-Length header absent / present / "
+            "empty / disagreeing x body none / chunks / chunked x header sets; constructed as net/http's server does, and as a real exchange over a "
+            "loopback httptest server) and c14.rt with a response (status x ContentLength x headers x trailers stored at EOF; request with "
+            "http.NoBody, Body == nil, declared or unknown length, read to the end by the scripted transport): every exchange is run WITHOUT and "
+            "WITH tracing and the application's view (request line, headers, ContentLength, body reads; status, headers, trailers; the caller's "
+            "own request afterwards) must be identical, and equal to the model's (identity + the request headers the trace reports, with the "
+            "synthesised Content-Length). Caller's memory: every slice the tracer is handed (trace, Read, Write; raw, reader, writer, rt, handler) is a window "
             "of ONE long-lived array with spare capacity behind it; every script runs under two disciplines - 'reuse' (same window every call, "
             "whole array scribbled over between calls) and 'accumulate' (consecutive windows, earlier data left in place) - whose results must be "
             "identical; after every call the whole array is compared with a private image built from copies taken before the call (bytes the "
@@ -247,7 +253,8 @@ class C14(Prop):
                     "vlib generators/comparator, Go overlay harness (scripted inner reader / response writer, recording Collector, re-used caller array "
                     "with private image)",
                     "modelled not verified: the decompressors (a Section variable in the theorems; a table of compress->plain pairs made by the "
-                    "repository's compressors when the model is run), net/http plumbing around the wrappers (TracingRoundTripper/TracingHandler), "
+                    "repository's compressors when the model is run), net/http itself (the plumbing of TracingRoundTripper/TracingHandler around it is "
+                    "modelled at the level of header-map references in C14_Http; client-side newBuilder's httptrace hook is not), "
                     "sync.Mutex / atomic.Bool (single goroutine per body)")
     assumptions = ("one goroutine reads or writes a given body at a time (the mutex is not modelled)",
                    "value semantics: the model's tracer state holds copies of the bytes it keeps; the Go code implements that only by copying out of "
@@ -264,7 +271,11 @@ class C14(Prop):
                   "parse of the whole body gives, ends with a single body-end event, decompresses the end-stream content exactly when the "
                   "envelope's compressed bit is set, and hands the caller exactly the inner bytes/counts/errors; at the level of an explicit caller memory, the copying tracer never writes to "
                   "the caller's array and yields the same events whatever the caller does with its buffers between calls, while the variant that retains "
-                  "the caller's slice is refuted; the model is tied to the Go code "
+                  "the caller's slice is refuted; headers as references (heap of header maps): the wrapped handler is given a request with the same "
+                  "method, ContentLength and header contents, no earlier map is written to and the trace reports the synthesised Content-Length in "
+                  "a map of its own (handler_sees_same_request; the non-cloning variant is refuted), and behind TracingRoundTripper the application "
+                  "gets the status, ContentLength, headers and trailers of the untraced call for every transport that answers by content "
+                  "(client_sees_same_response); the model is tied to the Go code "
                   "by a bounded-exhaustive plus random differential run on every check.")
     level_note = ("Trusted: Coq kernel, extraction, OCaml driver, harness; model-to-code correspondence is sampled (all compositions of bodies "
                   "<= 13/15 bytes and of their truncations), not proved. Decompressors are an oracle. The pass-through theorem is about the model's "
@@ -546,6 +557,104 @@ class C14(Prop):
                         yield ["c14.writer", hdr, table, wops]
                         if k % 4 == 0:
                             yield ["c14.handler", hdr, table, wops]
+
+        # 1c. what the APPLICATION sees around the bodies (seeded C14-16: the synthesised Content-Length of the trace leaked
+        #     into the headers of the request the wrapped handler is given - only on requests whose length is known
+        #     but which carry no Content-Length header, i.e. body-less ones such as a Connect GET).
+        #     c14.handler with a request: method x ContentLength (-1 / 0 / n) x Content-Length header (absent / present /
+        #     empty / disagreeing) x body (none, one chunk, split, byte-wise; declared length or chunked) x header sets,
+        #     constructed as net/http's server does (mode 0) and as a real exchange over loopback (mode 1);
+        #     c14.rt with the response around the body: status x ContentLength x headers x trailers (stored at EOF).
+        #     Both are run with and without tracing (Go side) and against the model (identity + the trace's headers).
+        def hm(d):
+            return [[k, list(v)] for k, v in sorted(d.items(), key=lambda kv: kv[0].encode())]
+
+        base_req = {"X-Test-Case-Name": ["verif-c14"], "User-Agent": ["verif/1"], "Accept-Encoding": ["identity"]}
+        req_sets = [
+            {},
+            {"Content-Type": ["application/connect+proto"], "Connect-Protocol-Version": ["1"]},
+            {"Content-Type": ["application/proto"], "X-Multi": ["a", "b c"], "Connect-Timeout-Ms": ["200"]},
+            {"Content-Type": ["application/grpc"], "Te": ["trailers"], "Grpc-Timeout": ["1S"], "X-Bin-Bin": ["AAEC", "/w=="]},
+        ]
+        qbody = envelope(0, b"ab") + envelope(1, b"") + envelope(0, b"xyz")
+        qchunkings = [[qbody], [qbody[:3], qbody[3:]], [qbody[i:i + 1] for i in range(len(qbody))], [qbody[:7], qbody[7:12], qbody[12:]],
+                      [qbody[:-2]], [b"{}"]]
+        resp_scripts = [
+            (conn, []),
+            (conn, [envelope(0, b"m") + envelope(2, b"{}")]),
+            (["application/grpc-web+proto", "", "", ""], [envelope(0, b"hello")[:4], envelope(0, b"hello")[4:] + envelope(0x80, b"grpc-status: 0\r\n")]),
+            (["application/json", "", "", ""], [b"{", b"}"]),
+        ]
+
+        def req_shapes(live):
+            """(method, ContentLength, Content-Length header or None, body chunks) as the SERVER finds them"""
+            yield "GET", 0, None, []                      # a Connect GET: length known, no header (what C14-16 needs)
+            yield "DELETE", 0, None, []
+            yield "POST", 0, "0", []                      # net/http's client writes Content-Length: 0 for a body-less POST
+            yield "PUT", 0, "0", []
+            for ch in qchunkings:
+                n = sum(len(c_) for c_ in ch)
+                yield "POST", n, str(n), ch                # declared length
+                yield "POST", -1, None, ch                 # chunked
+            if not live:
+                yield "POST", 0, None, []                  # a body-less HTTP/2 POST: no header, length 0
+                yield "GET", -1, None, []
+                yield "POST", 0, "", []                    # an empty Content-Length value counts as absent
+                yield "OPTIONS", 0, None, []
+                for ch in qchunkings[:3]:
+                    n = sum(len(c_) for c_ in ch)
+                    yield "POST", n, None, ch              # length known, header missing
+                    yield "POST", n, str(n + 1), ch        # header disagreeing with the length: nothing synthesised
+                    yield "PATCH", n, str(n), ch + [b""]
+
+        k = 0
+        for live in (0, 1):
+            for method, clen, clh, chunks in req_shapes(live):
+                for extra in req_sets:
+                    for hd, writes in resp_scripts:
+                        k += 1
+                        if live and (k % 3) and not (method in ("GET", "DELETE")):
+                            continue
+                        h = dict(base_req)
+                        h.update(extra)
+                        if clh is not None:
+                            h["Content-Length"] = [clh]
+                        wops = writer_ops(writes, None if (live or k % 7) else rng.randrange(len(writes) + 1))
+                        yield ["c14.handler", hd, [], wops, [live, method, clen, hm(h), chunks]]
+
+        rbodies = [b"", envelope(0, b"abc") + envelope(2, b"{}"), envelope(1, b"hello world")[:9], b"plain text"]
+        rhdr_sets = [
+            (conn, {"Content-Type": ["application/connect+proto"], "X-Multi": ["a", "b"]}),
+            (["application/grpc", "", "", ""], {"Content-Type": ["application/grpc"], "Grpc-Accept-Encoding": ["gzip,br"], "X-Bin-Bin": ["AAE"]}),
+            (["application/json", "", "", ""], {"Content-Type": ["application/json"], "Content-Length": ["10"], "Vary": ["Origin", "Accept"]}),
+            (["", "", "", ""], {}),
+        ]
+        trailer_sets = [{}, {"Grpc-Status": ["0"]}, {"Grpc-Message": ["m"], "Grpc-Status": ["13"], "X-Bin-Bin": ["a", "b"]}]
+        for body in rbodies:
+            for cutp in (0, len(body) // 2):
+                chunks = [c_ for c_ in (body[:cutp], body[cutp:]) if c_] if cutp else ([body] if body else [])
+                for ending in endings:
+                    if ending == "none":
+                        continue
+                    for hd, rh in rhdr_sets:
+                        for tr in trailer_sets:
+                            k += 1
+                            # the request: no body (http.NoBody, or Body == nil as http.NewRequest(m, url, nil) leaves it),
+                            # or a body the inner transport reads to the end (declared length / unknown length)
+                            qch = qchunkings[(k // 7) % len(qchunkings)]
+                            qn = sum(len(c_) for c_ in qch)
+                            mode, method, qclen, qclh, qchunks = [
+                                (0, "GET", 0, None, []), (2, "GET", 0, None, []), (0, "POST", 0, "0", []), (2, "POST", 0, None, []),
+                                (0, "POST", qn, None, qch), (0, "POST", -1, None, qch), (0, "POST", 0, None, []), (2, "DELETE", 0, None, []),
+                            ][k % 8]
+                            qh = dict(base_req)
+                            qh.update(req_sets[k % len(req_sets)])
+                            if qclh is not None:
+                                qh["Content-Length"] = [qclh]
+                            status = (200, 200, 404, 500)[(k // 3) % 4]
+                            rclen = (-1, len(body), 0)[(k // 5) % 3]
+                            yield ["c14.rt", 0, hd, [], reader_ops(chunks, ending),
+                                   [mode, method, qclen, hm(qh), qchunks], [status, rclen, hm(rh), hm(tr)]]
 
         # 2. random larger streams, random chunkings, through all entry points
         n_rand = 80000 if quick else 500000
